@@ -163,7 +163,19 @@ func run(pl Plan) (res vfx.Result) {
 		spawn(time.Duration(1000+s*1700)*time.Millisecond, func() {
 			from := nodes[s%n]
 			mem := from.M.Members()
-			to := mem[(s+1)%len(mem)]
+			// Members() hands out pointers into the node's own table, whose address and metadata fields are rewritten
+			// under the node lock while we would be reading them: only the (immutable) name is taken from there, the
+			// target is rebuilt from what the harness knows about that node
+			name := mem[(s+1)%len(mem)].Name
+			to := &memberlist.Node{Name: name}
+			for _, nd := range nodes {
+				if nd.Name() == name {
+					to.Addr, to.Port = net.ParseIP(nd.Conf.IP).To4(), uint16(nd.Conf.Port)
+				}
+			}
+			if to.Addr == nil {
+				return
+			}
 			_ = from.M.SendBestEffort(to, append([]byte("be-"), canary...))
 			_ = from.M.SendReliable(to, append([]byte("rel-"), canary...))
 			// the older entry points reach the transport through the same two paths; they are send sites all the same
